@@ -784,9 +784,23 @@ func isPtrTo(t types.Type, n *types.Named) bool {
 	return ok && n != nil && types.Identical(p.Elem(), n)
 }
 
+// isFreshAlloc: the address lies in an object allocated in this function (a local, a composite literal under
+// construction, or a field / element of one): a State value written there is a copy for reporting, not a breaker's
+// state word.
 func isFreshAlloc(v ssa.Value) bool {
-	_, ok := v.(*ssa.Alloc)
-	return ok
+	for i := 0; i < 6; i++ {
+		switch x := v.(type) {
+		case *ssa.Alloc:
+			return true
+		case *ssa.FieldAddr:
+			v = x.X
+		case *ssa.IndexAddr:
+			v = x.X
+		default:
+			return false
+		}
+	}
+	return false
 }
 
 // storesDeadline: call to updateNextRetryTimestamp, or an atomic store to a field named nextRetryTimestampMs.
